@@ -215,6 +215,14 @@ def handle (j : Json) : IO Unit := do
   match jstr (jget j "kind") with
   | "scenario" => handleScenario case j
   | "leak" => handleLeak case j
+  | "uptime" =>
+    -- a stream in flight when the engine's periodic clean-up pass runs (minutes after the last request started): the
+    -- backend sends it to its end, the client stays: it is delivered whole
+    let impl := jget j "impl"
+    if jstr (jget impl "start_err") != "" then emit case false true "start-error" "" (jstr (jget impl "start_err")) else
+    let whole := jbool (jget impl "whole") && jnat (jget impl "status") == 200
+    emit case whole whole s!"uptime.{jstr (jget j "engine")}" (if whole then "" else s!"{jstr (jget j "engine")}-stream-cut-by-the-clean-up-pass")
+      (if whole then "" else s!"{jstr (jget j "engine")}: stream in flight, {jnat (jget j "idle_min")} min without a new request, clean-up pass (ran: {jbool (jget impl "pass_ran")}): client got status {jnat (jget impl "status")} err '{jstr (jget impl "err")}' {jnat (jget impl "got")} of {jnat (jget impl "want")} bytes")
   | "soak" =>
     -- "a completed stream is delivered whole", on an engine instance that has seen clients go away mid-flow
     let impl := jget j "impl"
